@@ -22,6 +22,14 @@ Tie to /repo (C, hand-written model + correspondence):
     by the model's class table (and vice versa); the aliased call sites `f(a, out=a)` of the
     solver sources are extracted by AST on every run and each callee must be the application of a
     proximal operator (anything else is an uncovered obligation).
+  * round 4: `PointwiseNorm._abs_pow_ufunc` (3 branches), the gradient operators of
+    default_functionals.py through the default in-place bridge, `GroupL1Gradient` and
+    `RosenbrockGradient` in place have model programs in Model/ProxAux.lean (`auxProg`, `rosenProg`),
+    executed by the driver op `aux` and compared exactly like the proximal bodies (streams
+    aux-correspondence, aux-iterated-alias, incl. the raise path of KLCrossEntropyGradient); the
+    element-wise bodies are also compared on 2-d spaces (prog-2d); gradient Operator classes under
+    odl/solvers and EVERY call `f(a, out=a)` in odl (outside odl/solvers) are read from the AST and
+    must be modelled or classified (aux-class-set, aliased-call-site-all).
 Oracle (independent of the model, on the real code): P(x) vs y = x.copy(); P(y, out=y) vs
 P(x, out=NaN-filled z); returned object is `out`; x, g, sigma bitwise unchanged.  It is also
 applied to the calculus wrappers (translation, scaling, quadratic perturbation, composition,
@@ -67,8 +75,15 @@ ASSUMPTIONS = ['identity aliasing only (overlapping views of distinct objects ar
                'implementations; the per-component loops of ProximalHuber / ConvexConjL1L2 / L1L2 '
                'are merged into one statement on the flattened element',
                'the Float64 model covers real float64 spaces (rn, uniform_discr, constant / array '
-               'weights, power spaces); complex, float32, 2-d and nested product spaces are covered by '
-               'the oracle only (extra_space_stream)',
+               'weights, power spaces; since round 4 also 2-d tensor and 2-d discretized spaces for '
+               'the element-wise bodies: stream prog-2d); complex, float32 and nested product spaces '
+               'are covered by the oracle only (extra_space_stream)',
+               'round 4 bodies (Model/ProxAux.lean): the default in-place bridge is modelled on its '
+               'small-size path (fewer than THRESHOLD_SMALL = 100 entries: out = 1*res + 0*res), the '
+               'one all generated sizes take; GroupL1Gradient for exponent 2 and unweighted power '
+               'spaces; the composite gradient classes FunctionalComposition/Product/QuotientGradient '
+               'are listed, not modelled; the aliased call sites of odl/trafos (ndarray helper '
+               'fast_1d_tensor_mult) are classified, not modelled',
                'wrappers built by operator arithmetic are covered by the combinator theorems '
                '(C10.alias_safe_tree; C10.diagonal_alias_safe for combine_proximals), which are '
                'conditional on the leaf contract; their model-vs-code comparison (trees and '
